@@ -5,6 +5,10 @@ TECH = "deterministic simulation with fault injection (seeded schedules over one
 NOTE = "Trusted: soroban-env-host 22.1 test host (auth matching, rollback, TTL, budget abort), stellar-xdr, sha3/sha2, ed25519-dalek, the harness's own models and encoders. Contracts run natively, not as wasm (tokens deployed by ITS and upgrade targets are the repository's pre-built wasm)."
 SUFFIX = " Sampling, not enumeration: a clean batch is evidence, not proof."
 props = {
+ "C06": "Seeded simulation in worlds G, T, S, O, I and U with the operation mix biased to administrative entry points and to role-transfer histories (incl. transfer to self and back); each attempt carries an exactly specified authorisation forest from one candidate principal (current holder, former holder, holder of another role, beneficiary, stranger, nobody, right holder for other arguments); success iff the model's current holder authorised exactly that call; refused calls must leave the whole-ledger digest unchanged; role getters checked after every step.",
+ "C07": "Seeded simulation in worlds T, S, G, O and I over every entry point that debits, burns, pays gas from, sends as, consumes for, deploys under or executes as a named address, with exactly specified authorisation forests (named address, counterparty, owner, stranger, nobody, other arguments, root-only without the nested token transfer / burn / gas payment); contract-as-caller paths are exercised on the positive side; refused calls must leave the ledger digest unchanged.",
+ "C15": "Seeded simulation of upgrade/migrate sequences by owner, former owner, stranger and nobody on each of the five production contracts, a harness contract using the tree's derives and a copy of the repository's dummy, with pre-built wasm upgrade targets, plus Upgrader calls over requested version (same/correct/wrong), authorisation coverage of the two nested steps and migration data typing; a state-machine model (code, window, owner, version); failed Upgrader calls must leave the target's ledger entries bit-identical.",
+
  "C04": "Seeded simulation of the token service behind a real gateway: a hub stub (independent ABI encoder) builds, has approved and delivers inbound messages, each with at most one deviation from a conforming delivery (never/otherwise approved, wrong chain/address/wrapper/type, untrusted origin, unknown token, undecodable fields, out-of-range amount, wire corruption, duplicate delivery), interleaved with trusted-chain changes; any deviation must be refused with the whole-ledger digest unchanged. One deviation (hub address never compared) is a recorded known finding.",
  "C05": "Seeded simulation of deployments, canonical registrations, outbound transfers (burn and lock paths, boundary amounts, gas in the same or another token, Byzantine authorisation trees) and approved inbound transfers against a ledger model; custody and supply equations and every touched balance after each step; the announced payload must equal the independent ABI encoding byte for byte.",
  "C10": "World C: the repository's codec against an independent hand-written Solidity-ABI encoder on generated messages (byte-exact encoding, round trip) and on hostile bytes (bit flips, offset/length/tag/amount edits, truncation, trailing bytes, random): never crashes, and whatever it accepts re-encodes canonically to the input. World I: corrupted payloads approved and delivered in situ. The codec part is a pure function of its input; no schedule dependence is claimed for it.",
